@@ -60,8 +60,11 @@ META = dict(
         'paranoid._CheckArtifacts runs the registered singletons on the shared EcCurve objects; tie '
         'checked by this correspondence run on whole batches',
         'quick tier: max_diff = 2**10 and the BatchDL bound 2**16 instead of 2**24 / 2**32 (both are '
-        'parameters of the model; the theorems are stated for every max_diff and for the literal 2**32)',
-        'primality of the field primes / group orders of the named curves (validated by gmpy2 in C11)',
+        'parameters of the model; the theorems are stated for every max_diff and, since Proofs/EcAllBound.lean, '
+        'for every value of the bound: checkAllECFull_total / checkAllECDSASigsFull_total cover the compared '
+        'instance; the bound enters only through the float int(sqrt(bound*len)) >= 1, i.e. bound >= 1)',
+        'primality of the field primes / group orders of the named curves: kernel-checked Pratt certificates '
+        '(Props/C11Primes.lean; EcAll.fieldPrimes) - no longer an assumption of the end-to-end theorems',
         'state of the curve objects after an exception is not modelled',
     ])
 
